@@ -1,5 +1,7 @@
 import RNacos.Lemmas.NsRound
 import RNacos.Lemmas.CompRound
+import RNacos.Lemmas.NamingSnap
+import RNacos.Props.C11
 import RNacos.Props.C07
 import RNacos.Model.Config
 /-!
@@ -241,5 +243,56 @@ theorem other_tables_not_restored :
 example : AL.get? (seqLoad [] (seqBuild [("seq1", 5), ("seq0", 300)])) "seq0" = some 300 := by decide
 example : tget (tblLoad [] (tblBuild [("T_USER", [([107, 49], [118])]), ("T_CACHE", [([107, 49], [119])])])) "T_CACHE" [107, 49]
     = some [119] := by decide
+
+end RNacos.Props.C01
+
+/-! ## the registry's persistent instances
+
+`RNacos/Lemmas/NamingSnap.lean` models `NamingActor::{build_snapshot, load_snapshot_record}` and `Instance::{to_do,
+from_do}` on the registry model of C11-C13 (the load goes through the ordinary `update_instance`). -/
+namespace RNacos.Props.C01
+open RNacos.Naming
+
+/-- **the snapshot round trip of the registry**: a node that starts from a snapshot holds, under every service and
+address, exactly the persistent instance the writing node held there - address, weight, enabled, health, persistence
+class - and no ephemeral one; for every registry state that satisfies C11's invariant, every clock and process range -/
+theorem naming_component_roundtrip (n : Naming) (hinv : Inv n) (now : Int) (hashOf : SKey → Nat) (k : SKey)
+    (key : ShortKey) :
+    lookDo (loadSnapshot now hashOf {} (buildSnapshot n)) k key = (lookDo n k key).filter (fun d => !d.ephemeral) := by
+  have hempty : lookDo ({} : Naming) k key = none := rfl
+  have habs : (∀ r ∈ buildSnapshot n, keyOf r ≠ (k, key)) →
+      lookDo (loadSnapshot now hashOf {} (buildSnapshot n)) k key = none := by
+    intro h; rw [lookDo_loadSnapshot_absent now hashOf _ {} k key h, hempty]
+  cases hl : lookDo n k key with
+  | none =>
+    simp only [Option.filter_none]
+    apply habs
+    intro r hr hkey
+    have := (mem_buildSnapshot n hinv k key r.2).1 ⟨r, hr, hkey, rfl⟩
+    rw [hl] at this; cases this.1
+  | some d =>
+    by_cases he : d.ephemeral = true
+    · simp only [Option.filter, he, Bool.not_true, Bool.false_eq_true, if_false]
+      apply habs
+      intro r hr hkey
+      have := (mem_buildSnapshot n hinv k key r.2).1 ⟨r, hr, hkey, rfl⟩
+      rw [hl] at this
+      have hd : d = r.2 := Option.some.inj this.1
+      rw [hd] at he; rw [this.2] at he; cases he
+    · have he' : d.ephemeral = false := by cases h : d.ephemeral <;> simp_all
+      simp only [Option.filter, he', Bool.not_false, if_true]
+      obtain ⟨r, hr, hkey, hrd⟩ := (mem_buildSnapshot n hinv k key d).2 ⟨hl, he'⟩
+      apply lookDo_loadSnapshot_present now hashOf _ {} k key d ⟨r, hr, hkey⟩
+      intro r' hr' hkey'
+      have := (mem_buildSnapshot n hinv k key r'.2).1 ⟨r', hr', hkey', rfl⟩
+      rw [hl] at this
+      exact (Option.some.inj this.1).symm
+
+/-- in particular for every state the registry can reach (C11: `inv_reachable`) -/
+theorem naming_roundtrip_reachable (ops : List RNacos.Props.C11.NOp) (hok : RNacos.Props.C11.OpsOK ops) (now : Int)
+    (hashOf : SKey → Nat) (k : SKey) (key : ShortKey) :
+    lookDo (loadSnapshot now hashOf {} (buildSnapshot (RNacos.Props.C11.run {} ops))) k key =
+      (lookDo (RNacos.Props.C11.run {} ops) k key).filter (fun d => !d.ephemeral) :=
+  naming_component_roundtrip _ (RNacos.Props.C11.inv_reachable ops hok) now hashOf k key
 
 end RNacos.Props.C01
